@@ -55,6 +55,8 @@ var Runners = map[string]Runner{}
 // RunOne executes one simulated run inside a synctest bubble. When plan/sched
 // are nil, the tapes are generated from the seed; otherwise they are replayed
 // (exhausted tapes yield zeros).
+//
+//go:norace
 func RunOne(t *testing.T, prop string, seed uint64, plan, sched []int, replay bool, params map[string]int, trace bool) (res *Result) {
 	mode := ModeGen
 	if replay {
@@ -70,6 +72,8 @@ const (
 )
 
 // RunOneMode is RunOne with an explicit tape mode.
+//
+//go:norace
 func RunOneMode(t *testing.T, prop string, seed uint64, plan, sched []int, mode int, params map[string]int, trace bool) (res *Result) {
 	res = &Result{Prop: prop, Seed: seed}
 	start := time.Now()
@@ -130,10 +134,34 @@ func RunOneMode(t *testing.T, prop string, seed uint64, plan, sched []int, mode 
 		})
 	}()
 	res.WallMs = time.Since(start).Milliseconds()
+	if raceBuild {
+		seen := map[string]bool{}
+		for _, r := range collectRaces() {
+			if res.Stats == nil {
+				res.Stats = map[string]int{}
+			}
+			if r.Harness {
+				res.Stats["race.reports_in_simulator_bookkeeping_ignored"]++
+				continue
+			}
+			key := r.Access1 + " vs " + r.Access2
+			if p1, p2 := sitePkg(r.Access1), sitePkg(r.Access2); p1 == p2 && !strings.HasPrefix(p1, "masswallet") && !strings.HasPrefix(p1, "api") {
+				key += " [both accesses in package " + p1 + "]"
+			}
+			if seen[key] {
+				continue
+			}
+			seen[key] = true
+			res.Stats["race.reports"]++
+			res.Violations = append(res.Violations, Violation{Class: prop + ".data-race", Detail: "unsynchronised accesses: " + key + "\n" + firstLines(r.Text, 60)})
+		}
+	}
 	return res
 }
 
 // Shutdown stops every live instance so its goroutines and database go away.
+//
+//go:norace
 func (w *World) Shutdown() {
 	for _, inst := range w.Insts {
 		if inst.WM == nil || inst.Dead || inst.Stopped || !inst.Started || inst.StopRequested {
@@ -148,6 +176,8 @@ func (w *World) Shutdown() {
 
 // StopSolo runs WalletManager.Stop to completion with fair scheduling of the
 // followers. It reports whether Stop returned.
+//
+//go:norace
 func (inst *Instance) StopSolo() bool {
 	inst.StopRequested = true
 	g := inst.Call(RoleStopper, "Stop", func() { inst.WM.Stop() })
@@ -159,6 +189,8 @@ func (inst *Instance) StopSolo() bool {
 }
 
 // WriteReplay stores a replay file and returns its path.
+//
+//go:norace
 func WriteReplay(dir string, r *Replay) (string, error) {
 	if err := os.MkdirAll(dir, 0o755); err != nil {
 		return "", err
@@ -168,6 +200,7 @@ func WriteReplay(dir string, r *Replay) (string, error) {
 	return name, os.WriteFile(name, b, 0o644)
 }
 
+//go:norace
 func sanitize(s string) string {
 	var sb strings.Builder
 	for _, c := range s {
@@ -181,6 +214,8 @@ func sanitize(s string) string {
 }
 
 // Classes returns the sorted distinct violation classes of a result.
+//
+//go:norace
 func (r *Result) Classes() []string {
 	m := map[string]bool{}
 	for _, v := range r.Violations {
